@@ -480,6 +480,23 @@ fn p_foreign_opt() {
     kani::cover!(true, "p_foreign_opt reaches end");
 }
 
+#[kani::proof]
+fn p_foreign_borrowed_no_drop_fn() {
+    // a BORROWED handle (no release function stored — the layout allows it and the library's own
+    // views rely on it): conversions and clones keep it that way; dropping any of them releases nothing
+    let some = CArcSome { instance: &NOT_AN_ARC, clone_fn: rec_clone, drop_fn: None };
+    let c: CArc<u64> = some.transpose();
+    assert!(c.drop_fn.is_none() && c.clone_fn == Some(rec_clone as unsafe extern "C" fn(Option<&'static u64>) -> Option<&'static u64>), "C10 transposing a borrowed handle keeps its (absent) release function");
+    let c2 = c.clone();
+    unsafe { assert!(REC_CLONE == 1, "C10 cloning goes through the stored clone function") };
+    let back = c.transpose().unwrap();
+    assert!(back.drop_fn.is_none(), "C10 transposing back keeps the (absent) release function");
+    drop(back);
+    drop(c2);
+    unsafe { assert!(REC_DROP == 0, "C10 handles without a release function release nothing (no other function is substituted)") };
+    kani::cover!(true, "end");
+}
+
 static OTHER_HANDLE: u64 = 78;
 unsafe extern "C" fn rec_clone_other(p: Option<&'static u64>) -> Option<&'static u64> {
     REC_CLONE += 1;
